@@ -231,9 +231,20 @@ def columns_of(model):
 
 
 def _copy_val(v):
-    if isinstance(v, (dict, list)):
-        return copy.deepcopy(v)
+    """What a value looks like after a trip through the JSON column: a deep
+    copy with tuples turned into lists (proxies are immutable: shared)."""
+    if isinstance(v, dict):
+        return {k: _copy_val(x) for k, x in v.items()}
+    if isinstance(v, (list, tuple)):
+        return [_copy_val(x) for x in v]
     return v
+
+
+@functools.lru_cache(maxsize=None)
+def mutable_columns(model):
+    from mistral.db.sqlalchemy import types as st
+    return frozenset(c.key for c in model.__table__.columns
+                     if isinstance(c.type, st.JsonEncoded))
 
 
 class MiniDB(object):
@@ -480,7 +491,12 @@ class Session(object):
             key = (model, rec['id'])
             self._lock(key)
             self.overlay[key] = {k: _copy_val(v) for k, v in rec.items()}
-            self._adopt(obj, model, rec)
+            m = _Meta()
+            m.session, m.model, m.pk = self, model, rec['id']
+            m.deleted = False
+            obj.__dict__['_minidb'] = m
+            self.identity[key] = obj
+            self._snapshot(obj, sync_from=rec)
             self.db.log.append((self.name, 'insert', model.__name__))
         for inst in list(self.identity.values()):
             ch = self._changes(inst)
@@ -550,50 +566,67 @@ class Session(object):
             self.db.sessions.remove(self)
 
     # -- instances ----------------------------------------------------------
+    # Change tracking is SQLAlchemy's own: attribute sets and Mutable
+    # (MutableDict / MutableList) change events put the key into
+    # ``state.committed_state``; nested in-place mutations are NOT seen, as
+    # in production.
     def _adopt(self, inst, model, rec):
         m = _Meta()
         m.session, m.model, m.pk = self, model, rec['id']
         m.deleted = False
         inst.__dict__['_minidb'] = m
         self.identity[(model, rec['id'])] = inst
-        self._snapshot(inst, sync_from=rec)
+        self._load(inst, rec)
 
-    def _snapshot(self, inst, sync_from=None):
+    def _load(self, inst, rec):
+        """(Re)populate the instance from a record, without history."""
+        import sqlalchemy as sa
         from sqlalchemy.orm import attributes
         m = _meta(inst)
-        if sync_from is not None:
-            for k in columns_of(m.model):
-                v = sync_from.get(k)
-                cur = inst.__dict__.get(k, None)
-                if isinstance(v, (dict, list)):
-                    # keep the instance's own object when it is equal
-                    if isinstance(cur, type(v)) and _shallow_same(cur, v) \
-                            and k in inst.__dict__:
-                        continue
-                    v = copy.deepcopy(v)
-                elif k in inst.__dict__ and (cur is v):
-                    continue
+        state = sa.inspect(inst)
+        for k in columns_of(m.model):
+            v = _copy_val(rec.get(k))
+            if k in mutable_columns(m.model) and v is not None:
+                # through the instrumented attribute: coerces to
+                # MutableDict / MutableList and links it to this instance
+                setattr(inst, k, v)
+            else:
                 attributes.set_committed_value(inst, k, v)
-        m.loaded = {k: inst.__dict__.get(k) for k in columns_of(m.model)}
-        m.shallow = {k: copy.copy(v) for k, v in m.loaded.items()
-                     if isinstance(v, (dict, list))}
+        state._commit_all(state.dict)
+
+    def _snapshot(self, inst, sync_from=None):
+        import sqlalchemy as sa
+        if sync_from is not None:
+            # values computed by the "database" (defaults, onupdate)
+            from sqlalchemy.orm import attributes
+            m = _meta(inst)
+            for k in columns_of(m.model):
+                if k in mutable_columns(m.model):
+                    continue
+                v = sync_from.get(k)
+                if inst.__dict__.get(k) is not v:
+                    attributes.set_committed_value(inst, k, v)
+        state = sa.inspect(inst)
+        state._commit_all(state.dict)
 
     def _changes(self, inst):
+        import sqlalchemy as sa
         m = _meta(inst)
         if m is None or m.session is not self or m.deleted:
             return {}
+        state = sa.inspect(inst)
+        if not state.committed_state:
+            return {}
         out = {}
-        for k in columns_of(m.model):
+        cols = columns_of(m.model)
+        for k, old in list(state.committed_state.items()):
+            if k not in cols:
+                continue
             cur = inst.__dict__.get(k)
-            old = m.loaded.get(k)
-            if cur is not old:
-                if isinstance(cur, PRIMS) and isinstance(old, PRIMS) and \
-                        type(cur) is type(old) and cur == old:
-                    continue
+            if k in mutable_columns(m.model):
                 out[k] = cur
-            elif isinstance(cur, (dict, list)):
-                if not _shallow_same(cur, m.shallow.get(k)):
-                    out[k] = cur
+            elif not _leaf_same(old, cur):
+                out[k] = cur
         return out
 
     def materialise(self, model, rec):
@@ -619,10 +652,7 @@ class Session(object):
         if rec is None:
             m.deleted = True
             return
-        from sqlalchemy.orm import attributes
-        for k in columns_of(m.model):
-            attributes.set_committed_value(inst, k, _copy_val(rec.get(k)))
-        self._snapshot(inst)
+        self._load(inst, rec)
 
     # -- visibility / locks ---------------------------------------------------
     def _visible_rec(self, key):
@@ -998,12 +1028,13 @@ def _manufacture_persistent_object(session, specimen, values=None,
     if inst is None:
         return session.materialise(model, rec)
     # merge the updated values into the session's instance without history
+    import sqlalchemy as sa
     from sqlalchemy.orm import attributes
+    state = sa.inspect(inst)
     for k, v in (values or {}).items():
         if k in rec:
             attributes.set_committed_value(inst, k, _copy_val(rec[k]))
-            m = _meta(inst)
-            m.loaded[k] = inst.__dict__.get(k)
+            state.committed_state.pop(k, None)
     return inst
 
 
